@@ -11,24 +11,24 @@ use std::sync::mpsc::channel;
 pub struct Flt;
 
 #[derive(Clone, Default, Debug)]
-struct AF {
-    t: u8,
-    en: bool,
-    not: bool,
-    ecu: Option<String>,
-    ecure: Option<bool>,
-    apid: Option<String>,
-    apidre: Option<bool>,
-    ctid: Option<String>,
-    ctidre: Option<bool>,
-    vmm: Option<u32>,
-    mstp: Option<u32>,
-    pl: Option<String>,
-    plre: Option<String>,
-    ic: bool,
-    lmin: Option<u32>,
-    lmax: Option<u32>,
-    lcs: Option<Vec<u32>>,
+pub(crate) struct AF {
+    pub(crate) t: u8,
+    pub(crate) en: bool,
+    pub(crate) not: bool,
+    pub(crate) ecu: Option<String>,
+    pub(crate) ecure: Option<bool>,
+    pub(crate) apid: Option<String>,
+    pub(crate) apidre: Option<bool>,
+    pub(crate) ctid: Option<String>,
+    pub(crate) ctidre: Option<bool>,
+    pub(crate) vmm: Option<u32>,
+    pub(crate) mstp: Option<u32>,
+    pub(crate) pl: Option<String>,
+    pub(crate) plre: Option<String>,
+    pub(crate) ic: bool,
+    pub(crate) lmin: Option<u32>,
+    pub(crate) lmax: Option<u32>,
+    pub(crate) lcs: Option<Vec<u32>>,
 }
 
 fn flag(f: &Option<bool>) -> &'static str {
@@ -39,7 +39,7 @@ fn flag(f: &Option<bool>) -> &'static str {
     }
 }
 
-fn fmt_af(a: &AF) -> String {
+pub(crate) fn fmt_af(a: &AF) -> String {
     let mut v = vec![format!("t={}", a.t), format!("en={}", a.en as u8), format!("not={}", a.not as u8)];
     if let Some(s) = &a.ecu {
         v.push(format!("ecu={}", hex(s.as_bytes())));
@@ -78,7 +78,7 @@ fn fmt_af(a: &AF) -> String {
     v.join(",")
 }
 
-fn parse_af(s: &str) -> AF {
+pub(crate) fn parse_af(s: &str) -> AF {
     let mut a = AF { en: true, ..Default::default() };
     let st = |h: &str| String::from_utf8(unhex(h)).unwrap();
     let fl = |v: &str| match v {
@@ -159,16 +159,30 @@ fn to_json(a: &AF) -> String {
     serde_json::Value::Object(m).to_string()
 }
 
-fn xml_esc(s: &str) -> String {
+pub(crate) fn xml_esc(s: &str) -> String {
     s.replace('&', "&amp;").replace('<', "&lt;").replace('>', "&gt;")
 }
 
-fn dlf_expressible(a: &AF) -> bool {
+pub(crate) fn dlf_expressible(a: &AF) -> bool {
     !a.not && a.lcs.is_none() && a.vmm.is_none() && (a.mstp.is_none() || a.mstp == Some(3)) && a.t <= 3 && (a.ecu.is_none() || a.ecure == Some(false))
 }
 
 fn to_dlf(a: &AF) -> String {
-    let mut s = String::from("<?xml version=\"1.0\" encoding=\"UTF-8\"?><dltfilter><filter>");
+    to_dlf_many(std::slice::from_ref(a))
+}
+
+/// a dlt-viewer DLF document with one `<filter>` element per abstract filter
+pub(crate) fn to_dlf_many(afs: &[AF]) -> String {
+    let mut s = String::from("<?xml version=\"1.0\" encoding=\"UTF-8\"?><dltfilter>");
+    for a in afs {
+        s.push_str(&dlf_filter_element(a));
+    }
+    s.push_str("</dltfilter>");
+    s
+}
+
+fn dlf_filter_element(a: &AF) -> String {
+    let mut s = String::from("<filter>");
     let mut el = |k: &str, v: &str| s.push_str(&format!("<{}>{}</{}>", k, xml_esc(v), k));
     el("type", &a.t.to_string());
     el("enablefilter", if a.en { "1" } else { "0" });
@@ -212,7 +226,7 @@ fn to_dlf(a: &AF) -> String {
         el("enableLogLevelMin", "1");
         el("logLevelMin", &x.to_string());
     }
-    s.push_str("</filter></dltfilter>");
+    s.push_str("</filter>");
     s
 }
 
@@ -325,7 +339,7 @@ fn gen_id(rng: &mut Rng, universe: &[&str]) -> (String, Option<bool>) {
     }
 }
 
-fn gen_filter(rng: &mut Rng) -> AF {
+pub(crate) fn gen_filter(rng: &mut Rng) -> AF {
     let mut a = AF { en: !rng.chance(6), not: rng.chance(5), ..Default::default() };
     a.t = match rng.below(12) {
         0..=5 => 0,
